@@ -165,6 +165,25 @@ abcd           { return 4; }
 [a-z]+         { return 14; }
 %%
 ''',
+ # NUL shares the highest-numbered equivalence class with an ordinary character; 4 and 8 classes (powers of two: rest, newline, the letters, {z, NUL})
+ 'nulshare': r'''
+%%
+[z\0]+         { return 1; }
+a              { return 2; }
+(.|\n)         { return 3; }
+%%
+''',
+ 'nulshare8': r'''
+%%
+[z\0]+         { return 1; }
+a              { return 2; }
+b              { return 3; }
+c              { return 4; }
+d              { return 5; }
+e              { return 6; }
+(.|\n)         { return 7; }
+%%
+''',
  # small states with a transition on the last equivalence class: exercise the first-fit placement of -CF tables
  'sparse': r'''
 %%
